@@ -19,7 +19,7 @@ CONSTANT MaxDev
 (* ---- client assertions ----------------------------------------------------- *)
 CAVals == [ method : {"private_key_jwt", "client_secret_basic", "client_secret_post", "none", "client_secret_jwt", "plain_client"},   \* plain_client: not an OpenID Connect registration at all
             regalg : {"RS256", "ES256", "PS256"},
-            alg    : {"registered", "other_asymmetric", "HS256", "none"},
+            alg    : {"registered", "other_asymmetric", "same_family_other", "HS256", "none"},    \* same_family_other: RS256 <-> PS256 / RS512, ES256 <-> ES384: same key, another algorithm
             kid    : {"right", "absent", "unknown"},
             key    : {"registered", "other_client", "unregistered"},
             \* where the registered keys live: in the registration, behind jwks_uri, or behind a jwks_uri whose cached copy is stale
@@ -46,7 +46,8 @@ CAAccept(r) ==
   \* statement (an "only if") permits
   \* (the stale set holds an RSA key: an ES256 client's key can never be "found" in it, so the refresh always happens)
   /\ ((r.keysrc = "uri_stale" /\ r.regalg \in {"RS256", "PS256"}) => r.kid = "right")
-CARows == { [tbl |-> "CA", f |-> r, accept |-> CAAccept(r)] : r \in {x \in CAVals : CADev(x) <= MaxDev} }
+CARows == { [tbl |-> "CA", f |-> r, accept |-> CAAccept(r)] :
+              r \in {x \in CAVals : CADev(x) <= MaxDev /\ ~(x.alg = "same_family_other" /\ x.regalg = "ES256")} }    \* a P-256 key has no second algorithm
 
 (* ---- JWT-bearer grants ------------------------------------------------------- *)
 BGVals == [ key    : {"registered", "other_issuer", "unregistered"},
